@@ -13,7 +13,9 @@ import c14
 from c14 import FILES, decode_pool, f_interval, load_file, p_inst, p_map, p_yo, split_fields, unhex
 
 CALL_TIMEOUT_S = 20.0
-RLIMIT_AS_BYTES = 4 << 30
+STRUCTURED_TIMEOUT_S = 6.0          # id-map rewiring: an unfaulted load+fetch takes < 1 s, a cycle never ends
+RLIMIT_AS_HEADROOM = 3 << 29        # 1.5 GiB above what the worker already maps: a declared-count allocation
+                                    # (2^28 pointers = 2 GiB, 2^31 = 16 GiB) cannot succeed, real decoding needs < 100 MiB
 MODEL_JOBS = max(2, min(12, (os.cpu_count() or 4) - 2))
 CODE_JOBS = max(2, min(12, (os.cpu_count() or 4) - 2))
 
@@ -30,7 +32,7 @@ META = {
     "trusted_base": [
         "io.BytesIO read semantics; struct.unpack('i') of four bytes is 0 iff all four are 0",
         "zone creation depends only on (string pool, id, zone field bytes): a (id, field) pair fetched successfully from the undamaged file is not fetched again when pool and field are unchanged (spot-checked on a seeded sample by full evaluation)",
-        "wall-clock and memory limits are enforced by the harness (20 s alarm per call, RLIMIT_AS), not proved",
+        "wall-clock and memory limits are enforced by the harness (20 s alarm per call, 6 s for the id-map rewiring family; RLIMIT_AS = 1.5 GiB above the worker's mapped size), not proved",
     ],
     "partial": [
         "steps are bounded per reader loop (readN, readFields) on the model; no bound in seconds, no whole-run linear bound (k aliases of one large zone cost k decodes)",
@@ -167,6 +169,168 @@ def gen_faults(ctx, data: bytes, pool, n_random: int, stride: int = 1):
     return out
 
 
+def _varint(buf: bytes, pos: int):
+    ret = shift = 0
+    while True:
+        b = buf[pos]
+        pos += 1
+        ret += (b & 0x7F) << shift
+        shift += 7
+        if b < 0x80:
+            return ret, pos
+
+
+def _enc(v: int) -> bytes:
+    out = bytearray()
+    while v >= 0x80:
+        out.append(0x80 | (v & 0x7F))
+        v >>= 7
+    out.append(v)
+    return bytes(out)
+
+
+def _subst(data: bytes, edits):
+    """edits: [(pos, new bytes)] -> (fault string, number of bytes that really change) ; None when nothing changes"""
+    parts, changed = [], 0
+    for pos, new in edits:
+        for i, v in enumerate(new):
+            if data[pos + i] != v:
+                parts.append(f"s{pos + i}:{v:02x}")
+                changed += 1
+    return ("+".join(parts), changed) if parts else None
+
+
+def gen_idmap_rewiring(ctx, data: bytes, pool, per_kind: int = 6):
+    """Family A: <= 4 substituted bytes in the alias map (field 3: count, then (key index, value index) pool references)
+    that cross-wire aliases: 2-cycles, 3-cycles, self reference, chains alias -> alias, a value that is a pool string but
+    no zone id, pool index 0, an out-of-range index."""
+    rng = ctx.rng
+    fs = split_fields(data)
+    zone_idx = set()
+    for fid, a, b in fs:
+        if fid == 1:
+            zone_idx.add(_varint(data, a)[0])
+    out = []
+    for fid, a, b in fs:
+        if fid != 3:
+            continue
+        count, p = _varint(data, a)
+        entries = []
+        for _ in range(count):
+            if p >= b:
+                break
+            k, p = _varint(data, p)
+            vpos = p
+            v, p = _varint(data, p)
+            entries.append((k, v, vpos, p - vpos))
+        keys = {e[0] for e in entries}
+        order = list(range(len(entries)))
+        rng.shuffle(order)
+
+        def put(kind, edits, budget=4):
+            r = _subst(data, edits)
+            if r and r[1] <= budget and sum(1 for o in out if o[1] == kind) < per_kind:
+                out.append((r[0], kind))
+                return True
+            return False
+        # 2-cycles a -> b, b -> a
+        for i in order:
+            ka, va, pa, sa = entries[i]
+            for j in order:
+                kb, vb, pb, sb = entries[j]
+                if i < j and len(_enc(kb)) == sa and len(_enc(ka)) == sb:
+                    if put("cycle2", [(pa, _enc(kb)), (pb, _enc(ka))]):
+                        break
+            if sum(1 for o in out if o[1] == "cycle2") >= per_kind:
+                break
+        # 3-cycles a -> b -> c -> a
+        tries = 0
+        while sum(1 for o in out if o[1] == "cycle3") < per_kind and tries < 4000 and len(entries) >= 3:
+            tries += 1
+            (ka, _, pa, sa), (kb, _, pb, sb), (kc, _, pc, sc) = (entries[x] for x in rng.sample(order, 3))
+            if len(_enc(kb)) == sa and len(_enc(kc)) == sb and len(_enc(ka)) == sc:
+                put("cycle3", [(pa, _enc(kb)), (pb, _enc(kc)), (pc, _enc(ka))])
+        for i in order:
+            k, v, pos, sz = entries[i]
+            if len(_enc(k)) == sz:
+                put("self", [(pos, _enc(k))])
+            other = entries[order[(order.index(i) + 1) % len(order)]][0]
+            if other != k and len(_enc(other)) == sz:
+                put("chain", [(pos, _enc(other))])
+            non_zone = [x for x in range(len(pool)) if x not in zone_idx and x not in keys and len(_enc(x)) == sz]
+            if non_zone:
+                put("nonzone", [(pos, _enc(rng.choice(non_zone)))])
+            if sz == 1:
+                put("index0", [(pos, b"\x00")])
+            else:
+                put("index0", [(pos, bytes([0x80] * (sz - 1) + [0x00]))])      # over-long zero
+            for big in (len(pool), len(pool) + 1, (1 << (7 * sz)) - 1):
+                if len(_enc(big)) == sz:
+                    put("outofrange", [(pos, _enc(big))])
+            # the key side as well: an alias key that shadows a zone id
+            if zone_idx:
+                zi = rng.choice(sorted(zone_idx))
+                kpos = pos - len(_enc(k))
+                if len(_enc(zi)) == len(_enc(k)):
+                    put("key-is-zone", [(kpos, _enc(zi))])
+    return out
+
+
+def count_positions(data: bytes):
+    """(name, position of the count varint, its end) for every element count the decoders trust: string pool, alias map,
+    windows zones (after three pooled strings), zone locations, zone-1970 locations, every zone's period count."""
+    out = []
+    for fid, a, b in split_fields(data):
+        try:
+            if fid in (0, 3, 6, 7):
+                out.append(({0: "pool", 3: "idmap", 6: "locations", 7: "locations1970"}[fid], a, _varint(data, a)[1]))
+            elif fid == 4:
+                p = a
+                for _ in range(3):
+                    p = _varint(data, p)[1]
+                out.append(("windows", p, _varint(data, p)[1]))
+            elif fid == 1:
+                p = _varint(data, a)[1]            # pooled id
+                if data[p] == 2:
+                    out.append(("zone-periods", p + 1, _varint(data, p + 1)[1]))
+        except IndexError:
+            continue
+    return out
+
+
+def gen_count_faults(ctx, data: bytes, zones: int):
+    """Families B and C: the count varint replaced by huge and moderately large declared counts (<= 4 substituted bytes,
+    borrowing the continuation bits the neighbouring bytes already carry), and the stream cut right after the count."""
+    rng = ctx.rng
+    cps = count_positions(data)
+    fixed = [c for c in cps if c[0] != "zone-periods"]
+    zs = [c for c in cps if c[0] == "zone-periods"]
+    rng.shuffle(zs)
+    out = []
+    for name, pos, end in fixed + zs[:zones]:
+        for width, last_bytes in ((5, (0x07, 0x04)), (4, (0x7F, 0x40)), (3, (0x7F,)), (2, (0x7F,))):
+            if pos + width > len(data):
+                continue
+            for last in last_bytes:
+                new = bytes([data[pos + i] | 0x80 for i in range(width - 1)] + [last])
+                r = _subst(data, [(pos, new)])
+                if r and r[1] <= 4:
+                    out.append((r[0], f"count-{name}"))
+        # all-ones within the original width
+        w = end - pos
+        r = _subst(data, [(pos, bytes([0xFF] * (w - 1) + [0x7F]))])
+        if r and r[1] <= 4:
+            out.append((r[0], f"count-{name}"))
+        out.append((f"t{end}", f"cut-after-count-{name}"))
+        out.append((f"t{pos}", f"cut-after-count-{name}"))
+    seen, res = set(), []
+    for f in out:
+        if f[0] not in seen:
+            seen.add(f[0])
+            res.append(f)
+    return res
+
+
 # ---------------------------------------------------------------------------------------------
 # the real code under a fault (runs in worker processes)
 # ---------------------------------------------------------------------------------------------
@@ -182,7 +346,17 @@ def _worker_init():
     import resource
     import signal
     try:
-        resource.setrlimit(resource.RLIMIT_AS, (RLIMIT_AS_BYTES, RLIMIT_AS_BYTES))
+        vm = 0
+        with open("/proc/self/status") as fh:
+            for line in fh:
+                if line.startswith("VmSize:"):
+                    vm = int(line.split()[1]) * 1024
+        cap = vm + RLIMIT_AS_HEADROOM
+        soft, hard = resource.getrlimit(resource.RLIMIT_AS)
+        if hard != resource.RLIM_INFINITY:
+            cap = min(cap, hard)
+        resource.setrlimit(resource.RLIMIT_AS, (cap, hard))
+        _W["cap"] = cap
     except Exception:  # noqa: BLE001
         pass
 
@@ -245,14 +419,14 @@ def load_and_use(data: bytes, base_pool=None, base_ok=frozenset(), full=False):
 
 
 def eval_fault(arg):
-    """(rel, fault, full) -> (outcome, detail, seconds)"""
+    """(rel, fault, full, timeout) -> (outcome, detail, seconds)"""
     import signal
-    rel, fault, full = arg
+    rel, fault, full, limit = arg
     data, base_pool, base_ok = _baseline(rel)
     damaged = apply_fault(data, fault)
     from pyoda_time.utility import InvalidPyodaDataError
     t0 = time.time()
-    signal.setitimer(signal.ITIMER_REAL, CALL_TIMEOUT_S)
+    signal.setitimer(signal.ITIMER_REAL, limit)
     try:
         try:
             n = load_and_use(damaged, base_pool, base_ok, full)
@@ -262,9 +436,9 @@ def eval_fault(arg):
     except InvalidPyodaDataError as e:
         out, detail = "!invalidData", str(e)[:120]
     except _Hang:
-        out, detail = "!hang", f"no result within {CALL_TIMEOUT_S} s"
+        out, detail = "!hang", f"no result within {limit} s"
     except MemoryError:
-        out, detail = "!memory", "MemoryError"
+        out, detail = "!memory", f"MemoryError under an address-space cap of {_W.get('cap', 0) >> 20} MiB"
     except RecursionError:
         out, detail = "!other:RecursionError", ""
     except Exception as e:  # noqa: BLE001
@@ -276,11 +450,11 @@ def eval_fault(arg):
     return out, detail, time.time() - t0
 
 
-def run_code(tasks):
+def run_code(tasks, chunksize=8):
     import multiprocessing as mp
     ctxm = mp.get_context("fork")
     with ctxm.Pool(CODE_JOBS, initializer=_worker_init) as pool:
-        return pool.map(eval_fault, tasks, chunksize=8)
+        return pool.map(eval_fault, tasks, chunksize=chunksize)
 
 
 # ---------------------------------------------------------------------------------------------
@@ -316,9 +490,9 @@ def judge(rel, fault, outcome, detail, secs):
             return {"key": "slow", "what": f"{rel} fault {fault}: {secs:.1f} s"}
         return None
     if outcome == "!hang":
-        return {"key": "hang", "what": f"{rel} fault {fault}: load/list/fetch did not finish within {CALL_TIMEOUT_S} s"}
+        return {"key": "hang", "what": f"{rel} fault {fault}: load/list/fetch did not finish ({detail})"}
     if outcome == "!memory":
-        return {"key": "memory-exhausted", "what": f"{rel} fault {fault}: MemoryError under a {RLIMIT_AS_BYTES >> 30} GiB limit"}
+        return {"key": "memory-exhaustion", "what": f"{rel} fault {fault}: {detail} (memory requested in proportion to a declared count)"}
     typ = outcome.split(":", 1)[1]
     if detail.endswith(":for_id"):
         typ += "@for_id"      # raised by TzdbDateTimeZoneSource.for_id itself, for an id that get_ids() listed
@@ -536,11 +710,18 @@ def run(ctx):
         faults = ["none"] + gen_faults(ctx, data, list(pool), n_random)
         guided, gcount = guided_zone_faults(ctx, data, pool_payload, ctx.scale(30_000, 600_000))
         ctx.note(f"model_guided_candidates.{short}", gcount)
-        faults = list(dict.fromkeys(faults + guided))
+        rewiring = gen_idmap_rewiring(ctx, data, list(pool), ctx.scale(6, 40))
+        counts = gen_count_faults(ctx, data, ctx.scale(20, 10_000))
+        ctx.note(f"structured_faults.{short}", _family_histogram(rewiring + counts))
+        short_limit = {f for f, _ in rewiring}
+        structured = [f for f, _ in rewiring + counts]
+        faults = list(dict.fromkeys(structured + faults + guided))
         spot = set(ctx.rng.sample(range(len(faults)), max(1, len(faults) // 60)))
-        tasks = [(rel, f, i in spot) for i, f in enumerate(faults)]
+        tasks = [(rel, f, (i in spot) and f not in short_limit, STRUCTURED_TIMEOUT_S if f in short_limit else CALL_TIMEOUT_S)
+                 for i, f in enumerate(faults)]
+        ns = len(structured)
         t0 = time.time()
-        outs = run_code(tasks)
+        outs = run_code(tasks[:ns], chunksize=1) + run_code(tasks[ns:])
         ctx.note(f"code_wall_s.{short}", round(time.time() - t0, 1))
         for f, o in zip(faults, outs):
             results[(rel, f)] = o
@@ -552,7 +733,7 @@ def run(ctx):
         ctx.check_cases("faults." + short, [_FaultCase((rel, f)) for f in faults], case_fn)
 
         hx = hexs(data)
-        lines = [f"stream.faults {hx} " + " ".join(faults[i:i + per_line]) for i in range(0, len(faults), per_line)]
+        lines = [f"stream.faultsraw {hx} " + " ".join(faults[i:i + per_line]) for i in range(0, len(faults), per_line)]
 
         def impl(t, rel=rel):
             return " ".join(results[(rel, f)][0] for f in t[2:])
@@ -595,6 +776,13 @@ def _worker_init_parent():
     _W.clear()
 
 
+def _family_histogram(fs):
+    h = {}
+    for _, fam in fs:
+        h[fam] = h.get(fam, 0) + 1
+    return h
+
+
 def _histogram(outs):
     h = {}
     for o in outs:
@@ -606,7 +794,7 @@ def replay_op(op, failure):
     if op.startswith("fault "):
         _, rel, fault = op.split(" ", 2)
         _worker_init()
-        out, detail, secs = eval_fault((rel, fault, True))
+        out, detail, secs = eval_fault((rel, fault, True, CALL_TIMEOUT_S))
         print(f"outcome: {out} {detail} ({secs:.2f} s)")
         return judge(rel, fault, out, detail, secs)
     return None
